@@ -790,6 +790,15 @@ def is_exhaustion_exit(body, u):
         src = origin(body, {"c": o["p"]}) if not o["p"].get("p") else None
         if src and src["k"] == "call" and re.search(r"Iterator::next$|::next$|::next_back$|::pop_front$|::pop$|::pop_back$", src["t"].get("f", "")):
             return True
+    # counted loop: `while index < container.len()`
+    neg = 0
+    while o["k"] == "not":
+        o = o["a"]; neg += 1
+    if o["k"] == "bin" and o["op"] in ("Lt", "Le", "Gt", "Ge", "Ne"):
+        for side in (o["a"], o["b"]):
+            so = origin(body, side)
+            if (so["k"] == "call" and re.search(r"::len$", so["t"].get("f", ""))) or (so["k"] == "other" and so["r"].get("k") in ("len", "ptrmeta")):
+                return True
     return False
 
 
